@@ -95,8 +95,14 @@ Proof. vm_compute. reflexivity. Qed.
 From Coq Require Import String.
 Open Scope string_scope.
 Example ex_inventory_classifier :
-  unclassified [ mk_loc "cache.MemoryCache.locks" false [];
-                 mk_loc "cache.MemoryCache.hits" false [mk_w "cache:MemoryCache.Get" WSlot];
-                 mk_loc "cache.MemoryCache.entries" false [mk_w "cache:MemoryCache.cacheInternal" WElem] ]
+  unclassified [ mk_loc "cache.MemoryCache.locks" "[]sync.RWMutex" false [];
+                 mk_loc "cache.MemoryCache.hits" "int" false [mk_w "cache:MemoryCache.Get" WSlot];
+                 mk_loc "cache.MemoryCache.entries" "map[cache.CacheKey]*cache.memoryInternalEntry[MetadataT]" false [mk_w "cache:MemoryCache.cacheInternal" WElem] ]
   = ["cache.MemoryCache.hits"].
+Proof. vm_compute. reflexivity. Qed.
+
+(* a mutex outside the packages whose skeleton is regenerated is reported *)
+Example ex_unknown_lock :
+  unknown_locks [ mk_loc "cache.MemoryCache.mu" "sync.RWMutex" true [];
+                  mk_loc "proxy.fetcher.mu" "sync.Mutex" true [] ] = ["proxy.fetcher.mu"].
 Proof. vm_compute. reflexivity. Qed.
